@@ -160,17 +160,42 @@ def self_halting(prog) -> set[str]:
             and idl[s["ref"]] != "NOT_STARTED"}
 
 
+def must_precede(prog, ref, _memo=None) -> set[str]:
+    """Stages guaranteed to have completed before `ref` can start.  For an all-of join these are all its ancestors;
+    a first-of / multi-merge / k-of-n join fires after SOME of its prerequisites, so only what precedes every one of
+    them is guaranteed (for k-of-n this under-approximates: more stages count as racy, never fewer)."""
+    memo = {} if _memo is None else _memo
+    if ref in memo:
+        return memo[ref]
+    sd = _stage(prog, ref)
+    req = list(sd["req"])
+    per = [{r} | must_precede(prog, r, memo) for r in req]
+    early = sd["join"] in ("DISCRIMINATOR", "MULTI_MERGE") or (sd["join"] == "N_OF_M" and 0 < sd["thr"] < len(req))
+    if not per:
+        out: set[str] = set()
+    elif early and len(req) > 1:
+        out = set.intersection(*per)
+    else:
+        out = set.union(*per)
+    memo[ref] = out
+    return out
+
+
 def racy(prog) -> set[str]:
+    """Stages whose final status legitimately depends on the schedule: everything that may still be running (or not yet
+    started) when a halting stage h ends the workflow - i.e. all stages except those guaranteed to be complete before h
+    starts and those that cannot start without h."""
     out: set[str] = set()
     halting = self_halting(prog)
+    memo: dict = {}
     for h in halting:
-        anc, des = ancestors(prog, h), descendants(prog, h)
+        before = must_precede(prog, h, memo)
         for s in prog["stages"]:
             r = s["ref"]
-            if s["parent"] or r == h or r in anc or r in des:
+            if s["parent"] or r == h or r in before or h in must_precede(prog, r, memo):
                 continue
             out.add(r)
-            out |= descendants(prog, r)
+            out |= descendants(prog, r) - {h} - before
     # synthetic children of a racy stage are racy too
     out |= {s["ref"] for s in prog["stages"] if s["parent"] in out}
     return out
